@@ -51,7 +51,7 @@ EXPR_HOSTS = [
     ("class_decorator", "@X\nclass A:\n    pass\n"),
     ("base", "class A(X):\n    pass\n"),
     ("class_kw", "class A(k=X):\n    pass\n"),
-    ("fstring_field", "s = f'{X}'\n"),
+    ("fstring_field", "s = f'{ X }'\n"),
     ("fstring_spec", "s = f'{a:{X}}'\n"),
     ("assign_value", "x = X\n"),
     ("return_value", "def f():\n    return X\n"),
@@ -114,6 +114,48 @@ EXPR_CONSTRUCTS = [
     ("yield_in_lambda", "(lambda: (yield))"),
     ("async_genexp", "(i async for i in a)"),
 ]
+# every base construct also nested in every expression container the transformer must walk through
+EXPR_BASE = list(EXPR_CONSTRUCTS)
+EXPR_WRAPS = [
+    ("in_list", "[X]"),
+    ("in_tuple", "(X, 1)"),
+    ("in_set", "{X}"),
+    ("in_dict_value", "{1: X}"),
+    ("in_dict_key", "{X: 1}"),
+    ("in_dict_unpack", "{**X}"),
+    ("in_call_arg", "g(X)"),
+    ("in_call_kw", "g(k=X)"),
+    ("in_call_star", "g(*X)"),
+    ("in_call_func", "(X)(1)"),
+    ("in_ifexp_test", "(1 if X else 2)"),
+    ("in_ifexp_body", "(X if a else 2)"),
+    ("in_fstring", "f'{X}'"),
+    ("in_fstring_spec", "f'{a:{X}}'"),
+    ("in_subscript_index", "a[X]"),
+    ("in_subscript_object", "(X)[0]"),
+    ("in_slice", "a[X:]"),
+    ("in_ext_slice", "a[1:2, X]"),
+    ("in_attr", "(X).b"),
+    ("in_lambda_default", "(lambda p=X: p)"),
+    ("in_comp_first_iter", "[i for i in X]"),
+    ("in_boolop", "(a and X)"),
+    ("in_compare", "(a < X)"),
+    ("in_starred", "[*X]"),
+    ("in_walrus", "(w := X)"),
+    ("in_binop", "(a + X)"),
+    ("in_unaryop", "(not X)"),
+]
+for _bn, _bs in EXPR_BASE:
+    for _wn, _ws in EXPR_WRAPS:
+        EXPR_CONSTRUCTS.append((_bn + "@" + _wn, _ws.replace("X", _bs)))
+# ... and every expression slot of the C02 slot catalogue is a host
+from ..families.c02 import EXPR_SLOTS as _C02_SLOTS  # noqa: E402
+
+_have = {src for _, src in EXPR_HOSTS}
+for _sn, _ss in _C02_SLOTS.items():
+    if _ss not in _have and not any(_sn == h for h, _ in EXPR_HOSTS):
+        EXPR_HOSTS.append(("slot_" + _sn if any(_sn == h for h, _ in EXPR_HOSTS) else _sn, _ss))
+        _have.add(_ss)
 ILLEGAL = [
     # (name, source) programs that parse but that CPython refuses to compile
     ("break_module", "break\n"),
@@ -242,10 +284,22 @@ def cell_expr(h, c, cfgi):
     name = EXPR_CONSTRUCTS[c][0]
     src = wrap_in_function(src, name.startswith(("await", "async")))
     try:
-        ast.parse(src)
+        tree = ast.parse(src)
     except SyntaxError:
         return True, src
+    if not has_unsupported_expr(tree):
+        # the splice did not produce the construct (f'{X}' with X = {..} is a literal brace)
+        return True, src
     return (not converts(src, cfgi)), src
+
+
+def has_unsupported_expr(tree):
+    for n in ast.walk(tree):
+        if isinstance(n, (ast.Yield, ast.YieldFrom, ast.Await)):
+            return True
+        if isinstance(n, ast.comprehension) and n.is_async:
+            return True
+    return False
 
 
 def cell_illegal(i, cfgi):
